@@ -206,8 +206,13 @@ package mem
 //@   loop 0: invariant forall k uint64 :: old(k in s.data) ==> (k in s.data) && s.data[k] == old(s.data[k])
 //@   loop 0: invariant forall k uint64 :: old(k in s.data) ==> forall j in 0..usz(s) :: s.data[k].data[j] == old(s.data[k].data[j])
 //@   loop 0: invariant forall k uint64 :: (k in s.data) && !old(k in s.data) ==> forall j in 0..usz(s) :: s.data[k].data[j] == 0
+//@   label C20.read.covered.inv
 //@   loop 0: invariant forall i in 0..dn :: (gU[i] in s.data) && 0 <= gU[i] && gU[i] <= int(address) + i && int(address) + i < gU[i] + usz(s)
+//@   label C20.read.bytes.inv
 //@   loop 0: invariant forall i in 0..dn :: res[i] == s.data[gU[i]].data[int(address) + i - gU[i]]
+// ground instance of the line above (so that a misplaced chunk is refuted with a counterexample, not merely undecided)
+//@   label C20.read.bytes.first
+//@   loop 0: invariant dn > 0 ==> res[0] == s.data[gU[0]].data[int(address) - gU[0]]
 
 //@ fn (*Storage).Write
 //@   property C20
@@ -241,9 +246,14 @@ package mem
 //@   loop 0: invariant forall k uint64 :: old(k in s.data) ==> (k in s.data) && s.data[k] == old(s.data[k])
 //@   loop 0: invariant forall k uint64 :: k in s.data ==> ref(s.data[k].data) != ref(data)
 //@   loop 0: invariant forall i in 0..len(data) :: data[i] == old(data[i])
+// ground instance of the view (so that a misplaced chunk is refuted with a counterexample, not merely undecided)
+//@   label C20.write.view.firstbyte
+//@   loop 0: invariant dn > 0 ==> s.data[gU[0]].data[int(address) - gU[0]] == data[0]
 //@   loop 0: decreases len(data) - int(dataOffset)
+//@   label C20.write.covered.inv
 //@   loop 0: invariant forall i in 0..dn :: (gU[i] in s.data) && 0 <= gU[i] && gU[i] <= int(address) + i && int(address) + i < gU[i] + usz(s)
 //@   loop 0: invariant dn > 0 ==> (gU[dn - 1] in s.data) && 0 <= gU[dn - 1] && gU[dn - 1] < int(currAddr) && int(currAddr) <= gU[dn - 1] + usz(s)
+//@   label C20.write.view.inv
 //@   loop 0: invariant forall k uint64 :: k in s.data ==> forall j in 0..usz(s) :: s.data[k].data[j] == ((int(address) <= k + j && k + j < int(currAddr)) ? data[k + j - int(address)] : (old(k in s.data) ? old(s.data[k].data[j]) : 0))
 
 // ---- C20 / C07: storage checkpoint loading ----
@@ -257,10 +267,21 @@ package mem
 //@ fn (*Storage).LoadCheckpoint
 //@   property C20
 //@   requires storageWF(s)
+//@   use forall a in 0..18446744073709551616 :: modApartAll(int(s.unitSize), a)
+//@   witness nListed int = int(numUnits)      // the unit count read from the stream
 //@   label C20.load.error.unchanged
 //@   ensures result != nil ==> s.data == old(s.data) && s.capacity == old(s.capacity) && s.unitSize == old(s.unitSize)
 //@   label C20.load.wf
 //@   ensures result == nil ==> storageWF(s) && s.capacity == old(s.capacity) && s.unitSize == old(s.unitSize)
+// a successful load establishes the flat view's representation invariant (closes the chain Load -> Read/Write) ...
+//@   label C20.load.flat
+//@   ensures result == nil ==> storageFlat(s)
+// ... and every loaded unit lies inside the capacity
+//@   label C20.load.incap
+//@   ensures result == nil ==> (forall k uint64 :: k in s.data ==> k < int(s.capacity))
+// every listed unit is present afterwards: none was silently replaced by a later one with the same address
+//@   label C20.load.count
+//@   ensures result == nil ==> len(s.data) == nListed
 //@   label C20.load.exact
 //@   ensures result == nil ==> (forall k uint64 :: k in s.data ==> loaded[k])
 //@   label C20.load.freshunits
@@ -270,3 +291,15 @@ package mem
 //@   loop 0: backedge loaded = upd(loaded, addr, true)
 //@   loop 0: invariant data != nil && fresh(data) && storageWF(s) && unchanged(s.data) && unchanged(s.capacity) && unchanged(s.unitSize)
 //@   loop 0: invariant forall k uint64 :: k in data ==> loaded[k] && data[k] != nil && data[k] > old(allocTop) && len(data[k].data) == int(s.unitSize)
+//@   label C20.load.count.inv
+//@   loop 0: invariant len(data) == int(i) && i <= numUnits
+//@   label C20.load.aligned.inv
+//@   loop 0: invariant forall k uint64 :: k in data ==> k % usz(s) == 0
+//@   label C20.load.incap.inv
+//@   loop 0: invariant forall k uint64 :: k in data ==> k < int(s.capacity)
+//@   label C20.load.disjoint.inv
+//@   loop 0: invariant forall k1 uint64, k2 uint64 :: (k1 in data) && (k2 in data) && k1 < k2 ==> k1 + usz(s) <= k2
+//@   label C20.load.distinct.inv
+//@   loop 0: invariant forall k1 uint64, k2 uint64 :: (k1 in data) && (k2 in data) && k1 != k2 ==> data[k1] != data[k2] && ref(data[k1].data) != ref(data[k2].data)
+//@   label C20.load.owned.inv
+//@   loop 0: invariant forall k uint64 :: k in data ==> data[k] <= allocTop && ref(data[k].data) <= allocTop
